@@ -427,6 +427,13 @@ def gen_face(rng, fam):
         f["pole_lon"] = rng.choice([0.0, round(math.degrees(lon_of(corners[(k + 1) % n])), 3), rng.choice([-120.0, 45.0, 170.0])])
         return f
     f["corners"] = [reduce(lattice(v)) for v in pts]
+    if fam == "pole_inside" and rng.random() < 0.2:
+        # one corner exactly on the meridian lon 0 (the reference arcs pole -> (1,0,0) of _pole_point_inside_polygon pass
+        # through it): keep its latitude, put it into the plane y = 0 with x > 0
+        k = rng.randrange(n)
+        cs = list(f["corners"])
+        cs[k] = c14.merid_pt((1, 0), lat_of(cs[k]))
+        f["corners"] = cs
     return f
 
 
@@ -525,6 +532,7 @@ def judge(ck, face, box, st):
     for clause, amount in bad:
         info = {"family": fam, "branch": branch, "pole": orc["north"] if orc["north"] != "outside" else orc["south"],
                 "ref_point_inside": orc["ref_point_inside"], "location": orc["location"],
+                "vertex_on_ref_meridian": any(v[1] == 0 and v[0] > 0 for v in face["corners"]),
                 "enclosed_pole": "north" if orc["north"] == "inside" else ("south" if orc["south"] == "inside" else "none")}
         if clause == "raises":
             info["exception"] = box[1].split("(")[0]
